@@ -1,5 +1,327 @@
-//! C12 harness (stub: not implemented yet).
+//! C12 — repository data is served only to peers allowed to see it.
+//!
+//! Two kinds of cases (first token):
+//!
+//! * `h <stream hex> <chunk> <graph>` — the REAL `pktline::git_request` on a request header (see `header.rs`);
+//! * `w <policy a|b|n> <vis p|r> <allow r|o|ro|-> <delegate 0|1>` — the decision of the REAL worker
+//!   (`Worker::_process` / `is_authorized`), observed end-to-end: two real nodes (`test::environment`),
+//!   the responder holds a fresh repository with the given seeding policy (`a`llow entry, `b`lock entry, `n`o
+//!   entry: the node's default policy, block), visibility (`p`ublic / p`r`ivate with the allow list
+//!   holding the `r`equester and/or an`o`ther node) and delegate set; the requester attempts a real fetch.
+//!   `served` = the responder emitted an `UploadPack` event for that requester and repository, i.e.
+//!   `upload_pack` ran and wrote to the stream. Output `served` | `refused`.
+//!
+//! Oracle (the property statement on what the real code did): served or fetched although the repository
+//! is not seeded or not visible to the requester ⇒ `served-unauthorized`; repository present at the
+//! requester after a refusal ⇒ `data-leaked`; `git_request` panicking ⇒ `git-request-panic`.
+
+mod header;
+
+use std::str::FromStr as _;
+use std::sync::Mutex;
+use std::time::{Duration, Instant};
+
+use radicle::cob::identity::Identity;
+use radicle::git;
+use radicle::identity::{RepoId, Visibility};
+use radicle::node::policy::{Policy, Scope};
+use radicle::node::{Alias, Event, FetchResult, Handle as _, POLICIES_DB_FILE};
+use radicle::storage::{ReadStorage as _, SignRepository as _, WriteRepository as _};
+use radicle::test::fixtures;
+use radicle_crypto::test::signer::MockSigner;
+use radicle_node::service::Config;
+use radicle_node::storage::git::transport;
+use radicle_node::test::environment::{Node, NodeHandle};
+use verif_common::*;
+
+struct World {
+    _tmp: tempfile::TempDir,
+    alice: NodeHandle<MockSigner>,
+    bob: NodeHandle<MockSigner>,
+    other: radicle::node::NodeId,
+    counter: usize,
+}
+
+static WORLD: Mutex<Option<World>> = Mutex::new(None);
+
+fn world_init() -> World {
+    let tmp = tempfile::tempdir().expect("tempdir");
+    let alice = Node::init(tmp.path(), Config::test(Alias::new("alice")));
+    let bob = Node::init(tmp.path(), Config::test(Alias::new("bob")));
+    let other = Node::init(tmp.path(), Config::test(Alias::new("carol"))).id;
+    let mut alice = alice.spawn();
+    let bob = bob.spawn();
+    alice.connect(&bob);
+    transport::local::register(alice.storage.clone());
+    World { _tmp: tmp, alice, bob, other, counter: 0 }
+}
+
+/// Create a fresh repository in the responder's storage.
+fn make_repo(w: &mut World, private: bool, allow_r: bool, allow_o: bool, delegate: bool) -> Result<RepoId, String> {
+    w.counter += 1;
+    let name = format!("repo{}", w.counter);
+    let wd = w._tmp.path().join(format!("wd{}", w.counter));
+    let (repo, _) = fixtures::repository(&wd);
+    let mut allow = vec![];
+    if allow_r {
+        allow.push(w.bob.id.into());
+    }
+    if allow_o {
+        allow.push(w.other.into());
+    }
+    let vis = if private { Visibility::private(allow) } else { Visibility::Public };
+    let branch = git::RefString::try_from("master").map_err(|e| e.to_string())?;
+    let (rid, _, _) = radicle::rad::init(
+        &repo,
+        name.as_str().try_into().map_err(|e| format!("{e:?}"))?,
+        "c12 scenario",
+        branch.clone(),
+        vis,
+        &w.alice.signer,
+        &w.alice.storage,
+    )
+    .map_err(|e| format!("rad::init: {e}"))?;
+    git::push(
+        &repo,
+        "rad",
+        [(
+            &git::Qualified::from(git::lit::refs_heads(&branch)),
+            &git::Qualified::from(git::lit::refs_heads(&branch)),
+        )],
+    )
+    .map_err(|e| format!("push: {e}"))?;
+    let stored = w.alice.storage.repository(rid).map_err(|e| format!("repository: {e}"))?;
+    if delegate {
+        let mut identity = Identity::load_mut(&stored).map_err(|e| format!("identity: {e}"))?;
+        let mut doc = identity.doc().clone().edit();
+        doc.delegate(w.bob.id.into());
+        let verified = doc.verified().map_err(|e| format!("doc: {e}"))?;
+        let rev = identity
+            .update("Add delegate", "", &verified, &w.alice.signer)
+            .map_err(|e| format!("update: {e}"))?;
+        stored.set_identity_head_to(rev.into()).map_err(|e| format!("set head: {e}"))?;
+    }
+    stored.sign_refs(&w.alice.signer).map_err(|e| format!("sign_refs: {e}"))?;
+    Ok(rid)
+}
+
+fn ensure_connected(w: &mut World) {
+    let connected = w
+        .bob
+        .handle
+        .sessions()
+        .map(|s| s.iter().any(|s| s.nid == w.alice.id && s.state.is_connected()))
+        .unwrap_or(false);
+    if !connected {
+        let World { alice, bob, .. } = w;
+        alice.connect(bob);
+    }
+}
+
+enum Attempt {
+    Decided { served: bool, fetched: bool, leaked: bool },
+    Inconclusive(String),
+}
+
+fn attempt(w: &mut World, policy: &str, private: bool, allow_r: bool, allow_o: bool, delegate: bool) -> Attempt {
+    ensure_connected(w);
+    let rid = match make_repo(w, private, allow_r, allow_o, delegate) {
+        Ok(rid) => rid,
+        Err(e) => return Attempt::Inconclusive(format!("setup: {e}")),
+    };
+    // Check the fixture is what the scenario says (through the same storage the worker reads).
+    match w.alice.storage.repository(rid).and_then(|r| Ok(radicle::storage::ReadRepository::identity_doc(&r))) {
+        Ok(Ok(doc)) => {
+            let vis_ok = doc.is_public() != private;
+            let del_ok = doc.is_delegate(&w.bob.id.into()) == delegate;
+            if !vis_ok || !del_ok {
+                return Attempt::Inconclusive("fixture does not match the scenario".into());
+            }
+        }
+        _ => return Attempt::Inconclusive("fixture identity document unreadable".into()),
+    }
+    match policy {
+        "a" => {
+            if let Err(e) = w.alice.handle.seed(rid, Scope::All) {
+                return Attempt::Inconclusive(format!("seed: {e}"));
+            }
+        }
+        "b" => {
+            let db = w.alice.home.node().join(POLICIES_DB_FILE);
+            let r = radicle::node::policy::store::Store::open(db)
+                .map_err(|e| e.to_string())
+                .and_then(|mut s| s.set_seed_policy(&rid, Policy::Block).map_err(|e| e.to_string()));
+            if let Err(e) = r {
+                return Attempt::Inconclusive(format!("block: {e}"));
+            }
+        }
+        _ => {}
+    }
+    if let Err(e) = w.bob.handle.seed(rid, Scope::All) {
+        return Attempt::Inconclusive(format!("requester seed: {e}"));
+    }
+    let events = w.alice.handle.events();
+    let started = Instant::now();
+    let result = w.bob.handle.fetch(rid, w.alice.id, Duration::from_secs(60));
+    let fetched = match &result {
+        Ok(FetchResult::Success { .. }) => true,
+        Ok(FetchResult::Failed { reason }) => {
+            let r = reason.to_lowercase();
+            if r.contains("timed out") || r.contains("timeout") || r.contains("disconnected") {
+                return Attempt::Inconclusive(format!("fetch failed for an unrelated reason: {reason}"));
+            }
+            false
+        }
+        Err(e) => return Attempt::Inconclusive(format!("fetch command: {e}")),
+    };
+    if started.elapsed() > Duration::from_secs(45) {
+        return Attempt::Inconclusive("fetch took suspiciously long".into());
+    }
+    // Did the responder run upload-pack for this requester and repository?
+    let mut served = false;
+    let deadline = Instant::now() + Duration::from_millis(if fetched { 100 } else { 700 });
+    loop {
+        let left = deadline.saturating_duration_since(Instant::now());
+        match events.recv_timeout(left) {
+            Ok(Event::UploadPack(up)) => {
+                use radicle::node::events::UploadPack::*;
+                let (r, n) = match &up {
+                    Done { rid, remote, .. } | Write { rid, remote, .. } | Error { rid, remote, .. } | PackProgress { rid, remote, .. } => (*rid, *remote),
+                };
+                if r == rid && n == w.bob.id {
+                    served = true;
+                    break;
+                }
+            }
+            Ok(_) => {}
+            Err(_) => break,
+        }
+    }
+    let leaked = !served && !fetched && w.bob.storage.repository(rid).is_ok();
+    Attempt::Decided { served, fetched, leaked }
+}
+
+fn run_worker(toks: &[&str]) -> Outcome {
+    let bad = || Outcome::new("bad-case").trivial();
+    if toks.len() != 4 {
+        return bad();
+    }
+    let (policy, vis, allow, deleg) = (toks[0], toks[1], toks[2], toks[3]);
+    if !["a", "b", "n"].contains(&policy) || !["p", "r"].contains(&vis) || !["-", "r", "o", "ro"].contains(&allow) || !["0", "1"].contains(&deleg) {
+        return bad();
+    }
+    if vis == "p" && allow != "-" {
+        return bad();
+    }
+    let private = vis == "r";
+    let (allow_r, allow_o) = (allow.contains('r'), allow.contains('o'));
+    let delegate = deleg == "1";
+    let mut guard = WORLD.lock().unwrap();
+    if guard.is_none() {
+        match catch(world_init) {
+            Ok(w) => *guard = Some(w),
+            Err(e) => return Outcome::new(format!("inconclusive:world:{e}")).trivial(),
+        }
+    }
+    let w = guard.as_mut().unwrap();
+    let mut last = String::new();
+    for _try in 0..3 {
+        match attempt(w, policy, private, allow_r, allow_o, delegate) {
+            Attempt::Inconclusive(why) => {
+                last = why;
+                continue;
+            }
+            Attempt::Decided { served, fetched, leaked } => {
+                let seeded = policy == "a";
+                let visible = !private || allow_r || delegate;
+                let allowed = seeded && visible;
+                let out = if served || fetched { "served" } else { "refused" };
+                let mut o = Outcome::new(out)
+                    .tag(format!("w:{out}"))
+                    .tag(format!("w:policy-{policy}"))
+                    .tag(if !private { "w:public" } else if visible { "w:private-visible" } else { "w:private-invisible" });
+                if (served || fetched) && !allowed {
+                    o = o.violation(
+                        "served-unauthorized",
+                        format!(
+                            "responder ran upload-pack (served={served}, requester fetch succeeded={fetched}) although seeded={seeded} visible={visible}"
+                        ),
+                    );
+                }
+                if leaked {
+                    o = o.violation("data-leaked", "repository present in the requester's storage after a refused fetch");
+                }
+                return o;
+            }
+        }
+    }
+    // Never count a timeout as "refused".
+    Outcome::new(format!("inconclusive:{}", last.replace(' ', "_"))).tag("w:inconclusive").trivial()
+}
+
+fn run_case(input: &str) -> Outcome {
+    let toks: Vec<&str> = input.split(' ').collect();
+    match toks.first().copied() {
+        Some("h") => header::run_header(&toks[1..]),
+        Some("w") => run_worker(&toks[1..]),
+        _ => Outcome::new("bad-case").trivial(),
+    }
+}
+
+fn all_scenarios() -> Vec<String> {
+    let mut v = vec![];
+    for policy in ["a", "b", "n"] {
+        for (vis, allow) in [("p", "-"), ("r", "-"), ("r", "r"), ("r", "o"), ("r", "ro")] {
+            for d in ["0", "1"] {
+                v.push(format!("w {policy} {vis} {allow} {d}"));
+            }
+        }
+    }
+    v
+}
+
 fn main() {
-    eprintln!("C12: harness not implemented");
-    std::process::exit(3);
+    // `c12 mkcase <text>…`: print the `h` case line (with the real graph) for a stream given as text with
+    // C-style escapes \0 and \xNN; used to write corpus files.
+    let args: Vec<String> = std::env::args().collect();
+    if args.get(1).map(|s| s.as_str()) == Some("mkcase") {
+        for a in &args[2..] {
+            println!("{}", header::header_case(&header::unescape(a), 4));
+        }
+        return;
+    }
+    let _ = RepoId::from_str("rad:z3gqcJUoA1n9HaHKufZs5FCSGazv5");
+    let mut ctx = Ctx::from_args("C12");
+    if !ctx.run_fixed(run_case) {
+        let mut rng = ctx.rng();
+        // (a) request headers
+        for _ in 0..ctx.size(2_000, 50_000) {
+            let input = header::gen_header_case(&mut rng);
+            let o = run_case(&input);
+            ctx.record(&input, o);
+        }
+        // (b) decision table through the real worker
+        let scenarios: Vec<String> = if ctx.quick() {
+            // one of each decisive kind: allowed (public / allow-listed / delegate) and each way of refusing
+            ["w a p - 0", "w a r r 0", "w a r - 1", "w a r o 0", "w b p - 0", "w n r ro 1"].iter().map(|s| s.to_string()).collect()
+        } else {
+            all_scenarios()
+        };
+        for input in scenarios {
+            let o = run_case(&input);
+            ctx.record(&input, o);
+        }
+    }
+    // Shut the nodes down and remove their directories.
+    if let Some(w) = WORLD.lock().unwrap().take() {
+        drop(w);
+    }
+    ctx.finish(
+        "(a) request headers: structured git-upload-pack packet-lines (RepoId in every multibase base incl. broken ones, with/without rad:, \
+         host/port/extra variants, non-UTF-8 and multi-byte text, length prefix exact/off-by-n/upper-case/+/boundary 4,1024,1025, truncated and \
+         over-long streams, one-byte mutations), read in chunks of 1..4096 bytes; (b) real two-node fetch attempts over \
+         policy {allow entry, block entry, none} x visibility {public, private with allow list subset of {requester, other}} x requester is delegate; \
+         non-trivial = not a malformed case text and not inconclusive; distinct by input text",
+        false,
+    );
 }
